@@ -13,7 +13,8 @@ From JV Require Import Lib.Base Model.C09ParserState.
 (* ------------------------------------------------------------------------------------------------ *)
 (* the fresh view *)
 Definition cv_none : cvars := {| cv_pk := None; cv_sap := None; cv_dk := None |}.
-Definition v0 : view := {| v_pending := PNone; v_shtab := false; v_help_skip := false; v_cv := cv_none |}.
+Definition v0 : view :=
+  {| v_pending := PNone; v_shtab := false; v_help_skip := false; v_ddef := None; v_cv := cv_none |}.
 
 Lemma nth_repeat_same {A} (x : A) n i : nth i (repeat x n) x = x.
 Proof. revert i; induction n; destruct i; simpl; auto. Qed.
@@ -39,8 +40,8 @@ Definition opt_sim (a b : option (out * pending * cvars)) : Prop :=
   | _, _ => False
   end.
 
-Lemma consume_sim D pend has sel unk nested empty cv cv2 :
-  opt_sim (consume D pend has sel unk nested empty cv) (consume D pend has sel unk nested empty cv2).
+Lemma consume_sim D pend has sel unk nested empty dp cv cv2 :
+  opt_sim (consume D pend has sel unk nested empty dp cv) (consume D pend has sel unk nested empty dp cv2).
 Proof.
   unfold consume, opt_sim.
   destruct pend as [|key fl|fl]; auto.
@@ -49,15 +50,15 @@ Proof.
   - destruct (unk || _); auto. destruct (_ && f_sd fl); auto.
 Qed.
 
-Lemma consume_pnone D has sel unk nested empty cv : consume D PNone has sel unk nested empty cv = None.
+Lemma consume_pnone D has sel unk nested empty dp cv : consume D PNone has sel unk nested empty dp cv = None.
 Proof. reflexivity. Qed.
 
 Ltac consume_cases cv cv2 H :=
   match goal with
-  | |- context [consume ?D ?p ?h ?s ?u ?n ?e cv] =>
-      pose proof (consume_sim D p h s u n e cv cv2) as H;
-      destruct (consume D p h s u n e cv) as [[[?o1 ?p1] ?c1]|];
-      destruct (consume D p h s u n e cv2) as [[[?o2 ?p2] ?c2]|];
+  | |- context [consume ?D ?p ?h ?s ?u ?n ?e ?dp cv] =>
+      pose proof (consume_sim D p h s u n e dp cv cv2) as H;
+      destruct (consume D p h s u n e dp cv) as [[[?o1 ?p1] ?c1]|];
+      destruct (consume D p h s u n e dp cv2) as [[[?o2 ?p2] ?c2]|];
       simpl in H; try contradiction
   end.
 
@@ -84,18 +85,64 @@ Qed.
 
 (* ------------------------------------------------------------------------------------------------ *)
 (* the key print_shtab is the only place where the acquired action is read *)
-Lemma apply_item_noshtab D b b' c k v :
-  str_eqb k s_print_shtab = false -> apply_item D b c k v = apply_item D b' c k v.
+Lemma apply_item_noshtab fx dd D b b' c k v :
+  str_eqb k s_print_shtab = false -> apply_item fx dd D b c k v = apply_item fx dd D b' c k v.
 Proof. intro H. unfold apply_item. rewrite H. reflexivity. Qed.
 
-Lemma apply_items_noshtab D b b' u items : forall c,
+Lemma apply_items_noshtab fx dd D b b' u items : forall c,
   items_mention_shtab items = false ->
-  apply_items (apply_item D b) u c items = apply_items (apply_item D b') u c items.
+  apply_items (apply_item fx dd D b) u c items = apply_items (apply_item fx dd D b') u c items.
 Proof.
   induction items as [|[k v] r IH]; intros c H; simpl; [reflexivity|].
   unfold items_mention_shtab in H; simpl in H. apply orb_false_iff in H. destruct H as [Hk Hr].
-  rewrite (apply_item_noshtab D b b' c k v Hk).
-  destruct (apply_item D b' c k v); try reflexivity.
+  rewrite (apply_item_noshtab fx dd D b b' c k v Hk).
+  destruct (apply_item fx dd D b' c k v); try reflexivity.
+  - apply IH; exact Hr.
+  - destruct u; apply IH; exact Hr.
+Qed.
+
+(* the stored default of d is read only where a value for d is adapted, and only by the pinned code *)
+Lemma d_assign_dd fx dd dd2 ip c fa fb bad :
+  fx_dd fx = true -> d_assign fx dd ip c fa fb bad = d_assign fx dd2 ip c fa fb bad.
+Proof. intro F. unfold d_assign. rewrite F. reflexivity. Qed.
+
+Lemma apply_local_dd fx dd dd2 pd prefix c k v :
+  (fx_dd fx = true \/ dd = dd2 \/ key_is_d k = false) ->
+  apply_local fx dd pd prefix c k v = apply_local fx dd2 pd prefix c k v.
+Proof.
+  intros [F|[E|K]].
+  - unfold apply_local. destruct (split_dot k) as [h rest].
+    destruct (pd_dc pd && str_eqb h s_d); [|reflexivity].
+    destruct rest as [param|].
+    + destruct (str_eqb param s_a); [apply d_assign_dd; exact F|].
+      destruct (str_eqb param s_b); apply d_assign_dd; exact F.
+    + destruct (split_comma v []) as [|fa [|fb [|x y]]]; try reflexivity. apply d_assign_dd; exact F.
+  - subst; reflexivity.
+  - unfold apply_local, key_is_d in *. destruct (split_dot k) as [h rest]. simpl in K.
+    rewrite K, andb_false_r. reflexivity.
+Qed.
+
+Lemma apply_item_dd fx dd dd2 D b c k v :
+  (fx_dd fx = true \/ dd = dd2 \/ key_is_d k = false) ->
+  apply_item fx dd D b c k v = apply_item fx dd2 D b c k v.
+Proof.
+  intro H. unfold apply_item. destruct (str_eqb k s_print_shtab); [reflexivity|].
+  rewrite (apply_local_dd fx dd dd2 (d_root D) [] c k v H). reflexivity.
+Qed.
+
+Lemma apply_items_dd fx dd dd2 D b u items : forall c,
+  (fx_dd fx = true \/ dd = dd2 \/ items_mention_d items = false) ->
+  apply_items (apply_item fx dd D b) u c items = apply_items (apply_item fx dd2 D b) u c items.
+Proof.
+  induction items as [|[k v] r IH]; intros c H; simpl; [reflexivity|].
+  assert (Hk : fx_dd fx = true \/ dd = dd2 \/ key_is_d k = false).
+  { destruct H as [H|[H|H]]; auto. unfold items_mention_d in H; simpl in H.
+    apply orb_false_iff in H. tauto. }
+  assert (Hr : fx_dd fx = true \/ dd = dd2 \/ items_mention_d r = false).
+  { destruct H as [H|[H|H]]; auto. unfold items_mention_d in H; simpl in H.
+    apply orb_false_iff in H. tauto. }
+  rewrite (apply_item_dd fx dd dd2 D b c k v Hk).
+  destruct (apply_item fx dd2 D b c k v); try reflexivity.
   - apply IH; exact Hr.
   - destruct u; apply IH; exact Hr.
 Qed.
@@ -106,17 +153,22 @@ Qed.
 Definition so_core (a : scan_out) :=
   (so_res a, so_c a, so_unk a, so_pend a, so_chosen a, so_subargs a).
 
-Lemma scan_root_sim fx D i : forall toks hs hs2 c unk pend cv cv2,
+Lemma scan_root_sim fx D i : forall toks dd dd2 hs hs2 c unk pend cv cv2,
   (fx_hs fx = true \/ hs = hs2 \/ existsb tok_is_clshelp toks = false) ->
-  so_core (scan_root fx D i hs toks c unk pend cv) = so_core (scan_root fx D i hs2 toks c unk pend cv2).
+  (fx_dd fx = true \/ dd = dd2 \/ existsb tok_mentions_d toks = false) ->
+  so_core (scan_root fx dd D i hs toks c unk pend cv) = so_core (scan_root fx dd2 D i hs2 toks c unk pend cv2).
 Proof.
-  induction toks as [|t r IH]; intros hs hs2 c unk pend cv cv2 H; [reflexivity|].
+  induction toks as [|t r IH]; intros dd dd2 hs hs2 c unk pend cv cv2 H G; [reflexivity|].
   assert (Hr : fx_hs fx = true \/ hs = hs2 \/ existsb tok_is_clshelp r = false).
   { destruct H as [H|[H|H]]; auto. simpl in H. apply orb_false_iff in H. tauto. }
+  assert (Gr : fx_dd fx = true \/ dd = dd2 \/ existsb tok_mentions_d r = false).
+  { destruct G as [G|[G|G]]; auto. simpl in G. apply orb_false_iff in G. tauto. }
   destruct t as [n v|n|items|n]; simpl.
   - (* TOpt *)
     destruct (str_eqb n s_print_config && pd_cfg (d_root D)).
-    { destruct (parse_flags _ _); [apply IH; exact Hr|reflexivity]. }
+    { destruct (parse_flags _ _); [apply IH; assumption|reflexivity]. }
+    assert (Gn : fx_dd fx = true \/ dd = dd2 \/ key_is_d n = false).
+    { destruct G as [G|[G|G]]; auto. simpl in G. apply orb_false_iff in G. tauto. }
     destruct (is_suffix_help n) as [h|] eqn:Eh.
     + destruct (find_cls h (d_root D)) as [co|].
       * assert (Hsk : (if fx_hs fx then co_callable co else hs || co_callable co) =
@@ -126,28 +178,34 @@ Proof.
           - subst; reflexivity.
           - simpl in H. rewrite Eh in H. discriminate. }
         rewrite Hsk.
-        destruct (class_params _ v); [|reflexivity].
+        destruct (cls_for_help _ v); [|reflexivity].
         destruct r; reflexivity.
-      * destruct (apply_local _ _ _ _ _); try reflexivity; apply IH; exact Hr.
-    + destruct (apply_local _ _ _ _ _); try reflexivity; apply IH; exact Hr.
+      * rewrite (apply_local_dd fx dd dd2 (d_root D) [] c n v Gn).
+        destruct (apply_local _ _ _ _ _ _ _); try reflexivity; apply IH; assumption.
+    + rewrite (apply_local_dd fx dd dd2 (d_root D) [] c n v Gn).
+      destruct (apply_local _ _ _ _ _ _ _); try reflexivity; apply IH; assumption.
   - (* TFlag *)
     destruct (str_eqb n s_help); [reflexivity|].
-    destruct (str_eqb n s_print_config && pd_cfg (d_root D)); apply IH; exact Hr.
+    destruct (str_eqb n s_print_config && pd_cfg (d_root D)); apply IH; assumption.
   - (* TCfg *)
-    destruct (pd_cfg (d_root D)); [|apply IH; exact Hr].
-    destruct (apply_items _ UKeep c items) as [c'|]; [|reflexivity].
+    destruct (pd_cfg (d_root D)); [|apply IH; assumption].
+    assert (Gi : fx_dd fx = true \/ dd = dd2 \/ items_mention_d items = false).
+    { destruct G as [G|[G|G]]; auto. simpl in G. apply orb_false_iff in G. tauto. }
+    rewrite (apply_items_dd fx dd dd2 D (negb (fx_sh fx)) UKeep items c Gi).
+    rewrite (apply_items_dd fx dd dd2 D (negb (fx_sh fx)) UKeep items ic0 Gi).
+    destruct (apply_items _ UKeep c items) as [c'|c']; [|reflexivity].
     consume_cases cv cv2 Hc.
     + destruct Hc; subst; reflexivity.
-    + apply IH; exact Hr.
+    + apply IH; assumption.
   - (* TPos *)
-    destruct (d_subs D) as [|sp sps] eqn:Es; [apply IH; exact Hr|].
+    destruct (d_subs D) as [|sp sps] eqn:Es; [apply IH; assumption|].
     destruct (alookup n (sp :: sps)); [|reflexivity].
-    destruct (scan_sub _ _ _ _ _ _) as [[[res c'] unk'] pend']. reflexivity.
+    destruct (scan_sub _ _ _ _ _ _ _) as [[[res c'] unk'] pend']. reflexivity.
 Qed.
 
 (* with fx_hs the scan never writes help_skip *)
-Lemma scan_root_hs_kept fx D i : forall toks hs c unk pend cv,
-  fx_hs fx = true -> so_hs (scan_root fx D i hs toks c unk pend cv) = hs.
+Lemma scan_root_hs_kept fx dd D i : forall toks hs c unk pend cv,
+  fx_hs fx = true -> so_hs (scan_root fx dd D i hs toks c unk pend cv) = hs.
 Proof.
   induction toks as [|t r IH]; intros hs c unk pend cv F; [reflexivity|].
   destruct t as [n v|n|items|n]; simpl.
@@ -155,17 +213,17 @@ Proof.
     { destruct (parse_flags _ _); [apply IH; exact F|reflexivity]. }
     destruct (is_suffix_help n) as [h|].
     + destruct (find_cls h (d_root D)) as [co|].
-      * rewrite F. destruct (class_params _ v); [|reflexivity]. destruct r; reflexivity.
-      * destruct (apply_local _ _ _ _ _); try reflexivity; apply IH; exact F.
-    + destruct (apply_local _ _ _ _ _); try reflexivity; apply IH; exact F.
+      * rewrite F. destruct (cls_for_help _ v); [|reflexivity]. destruct r; reflexivity.
+      * destruct (apply_local _ _ _ _ _ _ _); try reflexivity; apply IH; exact F.
+    + destruct (apply_local _ _ _ _ _ _ _); try reflexivity; apply IH; exact F.
   - destruct (str_eqb n s_help); [reflexivity|].
     destruct (str_eqb n s_print_config && pd_cfg (d_root D)); apply IH; exact F.
   - destruct (pd_cfg (d_root D)); [|apply IH; exact F].
-    destruct (apply_items _ UKeep c items) as [c'|]; [|reflexivity].
-    destruct (consume _ _ _ _ _ _ _ _) as [[[o1 p1] c1]|]; [reflexivity|apply IH; exact F].
+    destruct (apply_items _ UKeep c items) as [c'|c']; [|reflexivity].
+    destruct (consume _ _ _ _ _ _ _ _ _) as [[[o1 p1] c1]|]; [reflexivity|apply IH; exact F].
   - destruct (d_subs D) as [|sp sps] eqn:Es; [apply IH; exact F|].
     destruct (alookup n (sp :: sps)); [|reflexivity].
-    destruct (scan_sub _ _ _ _ _ _) as [[[res c'] unk'] pend']. reflexivity.
+    destruct (scan_sub _ _ _ _ _ _ _) as [[[res c'] unk'] pend']. reflexivity.
 Qed.
 
 (* ------------------------------------------------------------------------------------------------ *)
@@ -173,7 +231,8 @@ Qed.
 Definition reads_clean (fx : fixes) (v : view) (k : opk) : bool :=
   is_pnone (v_pending v) &&
   negb (negb (fx_sh fx) && v_shtab v && op_mentions_shtab k) &&
-  negb (negb (fx_hs fx) && v_help_skip v && op_has_clshelp k).
+  negb (negb (fx_hs fx) && v_help_skip v && op_has_clshelp k) &&
+  negb (negb (fx_dd fx) && is_some (v_ddef v) && op_mentions_d k).
 
 Definition args_out (D : decl) (so : scan_out) : out :=
   match so_res so with
@@ -184,7 +243,7 @@ Definition args_out (D : decl) (so : scan_out) : out :=
 
 Lemma exec_args_out fx D i v argv :
   fst (exec fx D i v (PArgs argv)) =
-  args_out D (scan_root fx D i (v_help_skip v) argv ic0 false (v_pending v)
+  args_out D (scan_root fx (v_ddef v) D i (v_help_skip v) argv ic0 false (v_pending v)
                 {| cv_pk := Some (None, true); cv_sap := Some (LP i []); cv_dk := cv_dk (v_cv v) |}).
 Proof.
   unfold exec, args_out.
@@ -212,18 +271,21 @@ Qed.
 Lemma exec_items_frame fx D v u items :
   is_pnone (v_pending v) = true ->
   (fx_sh fx = true \/ v_shtab v = false \/ items_mention_shtab items = false) ->
+  (fx_dd fx = true \/ v_ddef v = None \/ items_mention_d items = false) ->
   fst (exec_items fx D v u items) = fst (exec_items fx D v0 u items).
 Proof.
-  intros Hp Hs. unfold exec_items.
-  destruct (v_pending v); try discriminate. simpl v_pending. simpl v_shtab.
-  assert (E : apply_items (apply_item D (v_shtab v && negb (fx_sh fx))) u ic0 items =
-              apply_items (apply_item D (false && negb (fx_sh fx))) u ic0 items).
-  { destruct Hs as [F|[F|F]].
+  intros Hp Hs Hd. unfold exec_items.
+  assert (Ep : v_pending v = PNone) by (destruct (v_pending v); [reflexivity|discriminate|discriminate]).
+  rewrite Ep. change (v_pending v0) with PNone. change (v_shtab v0) with false. change (v_ddef v0) with (@None dv).
+  assert (E : apply_items (apply_item fx (v_ddef v) D (v_shtab v && negb (fx_sh fx))) u ic0 items =
+              apply_items (apply_item fx None D (false && negb (fx_sh fx))) u ic0 items).
+  { rewrite (apply_items_dd fx (v_ddef v) None D (v_shtab v && negb (fx_sh fx)) u items ic0 Hd).
+    destruct Hs as [F|[F|F]].
     - rewrite F. rewrite !andb_false_r. reflexivity.
     - rewrite F. reflexivity.
     - apply apply_items_noshtab; exact F. }
   rewrite E. clear E.
-  destruct (apply_items _ u ic0 items) as [c|]; [|reflexivity].
+  destruct (apply_items _ u ic0 items) as [c|c]; [|reflexivity].
   pose proof (parse_common_sim D PNone None c (v_cv v) (v_cv v0)) as P. unfold pc_core in P.
   destruct (parse_common D PNone None c (v_cv v)) as [[o p] cv'].
   destruct (parse_common D PNone None c (v_cv v0)) as [[o2 p2] cv2].
@@ -234,28 +296,34 @@ Lemma exec_frame fx D i v k :
   reads_clean fx v k = true -> fst (exec fx D i v k) = fst (exec fx D i v0 k).
 Proof.
   unfold reads_clean. intro H.
+  apply andb_true_iff in H. destruct H as [H H4].
   apply andb_true_iff in H. destruct H as [H H3]. apply andb_true_iff in H. destruct H as [H1 H2].
-  apply negb_true_iff in H2. apply negb_true_iff in H3.
+  apply negb_true_iff in H2. apply negb_true_iff in H3. apply negb_true_iff in H4.
   assert (S2 : forall items, op_mentions_shtab k = items_mention_shtab items ->
                fx_sh fx = true \/ v_shtab v = false \/ items_mention_shtab items = false).
   { intros items E. rewrite E in H2.
     destruct (fx_sh fx); [left; reflexivity|]. destruct (v_shtab v); [|right; left; reflexivity].
     right; right. exact H2. }
-  destruct k as [argv|items|items|items| |cr sn sd sv|cr|].
+  assert (S4 : forall b, op_mentions_d k = b -> fx_dd fx = true \/ v_ddef v = None \/ b = false).
+  { intros b E. rewrite E in H4.
+    destruct (fx_dd fx); [left; reflexivity|]. destruct (v_ddef v); [|right; left; reflexivity].
+    right; right. exact H4. }
+  destruct k as [argv|items|items|items| |d cr sn sd sv|d cr|].
   - (* parse_args *)
     rewrite !exec_args_out. apply args_out_core.
     assert (Ep : v_pending v = PNone) by (destruct (v_pending v); [reflexivity|discriminate|discriminate]).
-    rewrite Ep. simpl v_pending. simpl v_help_skip.
+    rewrite Ep. simpl v_pending. simpl v_help_skip. simpl v_ddef.
     apply scan_root_sim.
-    simpl in H3.
-    destruct (fx_hs fx); [left; reflexivity|]. destruct (v_help_skip v); [|right; left; reflexivity].
-    right; right. exact H3.
-  - apply exec_items_frame; [exact H1|apply S2; reflexivity].
-  - apply exec_items_frame; [exact H1|apply S2; reflexivity].
-  - apply exec_items_frame; [exact H1|apply S2; reflexivity].
+    + simpl in H3.
+      destruct (fx_hs fx); [left; reflexivity|]. destruct (v_help_skip v); [|right; left; reflexivity].
+      right; right. exact H3.
+    + apply S4. reflexivity.
+  - apply exec_items_frame; [exact H1|apply S2; reflexivity|apply S4; reflexivity].
+  - apply exec_items_frame; [exact H1|apply S2; reflexivity|apply S4; reflexivity].
+  - apply exec_items_frame; [exact H1|apply S2; reflexivity|apply S4; reflexivity].
   - reflexivity.
   - simpl. destruct (cr && negb sv); [reflexivity|]. destruct (sd && d_subreq D && _); reflexivity.
-  - reflexivity.
+  - simpl. destruct cr; reflexivity.
   - reflexivity.
 Qed.
 
@@ -265,7 +333,8 @@ Proof.
   unfold in_guard, guard_class, reads_clean, view_of; simpl.
   destruct (is_pnone _); simpl; [|discriminate].
   destruct (negb (fx_sh fx) && _ && op_mentions_shtab _); simpl; [discriminate|].
-  destruct (negb (fx_hs fx) && _ && op_has_clshelp _); simpl; [discriminate|reflexivity].
+  destruct (negb (fx_hs fx) && _ && op_has_clshelp _); simpl; [discriminate|].
+  destruct (negb (fx_dd fx) && _ && op_mentions_d _); simpl; [discriminate|reflexivity].
 Qed.
 
 (* ---- 2. inside the guard the answer after any state is the answer of a fresh parser ---- *)
@@ -284,6 +353,7 @@ Proof. apply guarded_state_independent. Qed.
 (* ------------------------------------------------------------------------------------------------ *)
 (* 3. invariants of the repaired variants *)
 Definition no_pending (s : state) : Prop := Forall (fun ps => ps_pending ps = PNone) (st_ps s).
+Definition no_ddef (s : state) : Prop := Forall (fun ps => ps_ddef ps = None) (st_ps s).
 
 Lemma Forall_set_nth {A} (P : A -> Prop) x : forall l i, Forall P l -> P x -> Forall P (set_nth i x l).
 Proof.
@@ -300,7 +370,7 @@ Lemma exec_items_pending fx D v u items :
   v_pending v = PNone -> w_pending (snd (exec_items fx D v u items)) = PNone.
 Proof.
   intro E. unfold exec_items.
-  destruct (apply_items _ u ic0 items) as [c|]; [|exact E].
+  destruct (apply_items _ u ic0 items) as [c|c]; [|exact E].
   rewrite E. pose proof (parse_common_pnone D None c (v_cv v)) as P.
   destruct (parse_common D PNone None c (v_cv v)) as [[o p] cv']. simpl in *. exact P.
 Qed.
@@ -309,7 +379,7 @@ Lemma exec_pending_pc fx D i v k :
   fx_pc fx = true -> v_pending v = PNone -> w_pending (snd (exec fx D i v k)) = PNone.
 Proof.
   intros F E.
-  destruct k as [argv|items|items|items| |cr sn sd sv|cr|]; simpl.
+  destruct k as [argv|items|items|items| |d cr sn sd sv|d cr|]; simpl.
   - rewrite F.
     destruct (so_res _); [|reflexivity].
     destruct (so_unk _); [reflexivity|].
@@ -319,7 +389,7 @@ Proof.
   - apply exec_items_pending; exact E.
   - exact E.
   - destruct (cr && negb sv); [exact E|]. destruct (sd && d_subreq D && _); exact E.
-  - exact E.
+  - destruct cr; exact E.
   - exact E.
 Qed.
 
@@ -342,23 +412,64 @@ Proof.
   apply IH; [exact F|]. apply step_no_pending; assumption.
 Qed.
 
+(* with fx_dd nothing is ever stored in the action's dict *)
+Lemma exec_ddef_kept fx D i v k :
+  fx_dd fx = true -> w_ddef (snd (exec fx D i v k)) = v_ddef v.
+Proof.
+  intro F.
+  destruct k as [argv|items|items|items| |d cr sn sd sv|d cr|]; simpl; try reflexivity.
+  - unfold dd_after. rewrite F.
+    destruct (so_res _); [|reflexivity].
+    destruct (so_unk _); [reflexivity|].
+    destruct (parse_common _ _ _ _ _) as [[o p] c]. reflexivity.
+  - unfold exec_items, dd_after. rewrite F. destruct (apply_items _ _ _ _) as [c1|c1]; [|reflexivity].
+    destruct (parse_common _ _ _ _ _) as [[o p] cv']. reflexivity.
+  - unfold exec_items, dd_after. rewrite F. destruct (apply_items _ _ _ _) as [c1|c1]; [|reflexivity].
+    destruct (parse_common _ _ _ _ _) as [[o p] cv']. reflexivity.
+  - unfold exec_items, dd_after. rewrite F. destruct (apply_items _ _ _ _) as [c1|c1]; [|reflexivity].
+    destruct (parse_common _ _ _ _ _) as [[o p] cv']. reflexivity.
+  - unfold dd_checked. rewrite F.
+    destruct (cr && negb sv); [reflexivity|]. destruct (sd && d_subreq D && _); destruct sv; reflexivity.
+  - unfold dd_checked. rewrite F. destruct cr; reflexivity.
+Qed.
+
+Lemma no_ddef_init n : no_ddef (init n).
+Proof. unfold no_ddef, init; simpl. induction n; simpl; constructor; auto. Qed.
+
+Lemma step_no_ddef fx Ds s o :
+  fx_dd fx = true -> no_ddef s -> no_ddef (fst (step fx Ds s o)).
+Proof.
+  intros F Hs. rewrite step_state. unfold no_ddef, commit; simpl.
+  apply Forall_set_nth; [exact Hs|]. simpl.
+  rewrite exec_ddef_kept by exact F.
+  unfold view_of, get_ps; simpl. apply Forall_nth_default; [exact Hs|reflexivity].
+Qed.
+
+Lemma run_no_ddef fx Ds : forall ops s,
+  fx_dd fx = true -> no_ddef s -> no_ddef (run fx Ds s ops).
+Proof.
+  unfold run. induction ops as [|o r IH]; intros s F Hs; simpl; [exact Hs|].
+  apply IH; [exact F|]. apply step_no_ddef; assumption.
+Qed.
+
 Lemma exec_help_skip_kept fx D i v k :
   fx_hs fx = true -> w_help_skip (snd (exec fx D i v k)) = v_help_skip v.
 Proof.
   intro F.
-  destruct k as [argv|items|items|items| |cr sn sd sv|cr|]; simpl; try reflexivity.
-  - pose proof (scan_root_hs_kept fx D i argv (v_help_skip v) ic0 false (v_pending v)
+  destruct k as [argv|items|items|items| |d cr sn sd sv|d cr|]; simpl; try reflexivity.
+  - pose proof (scan_root_hs_kept fx (v_ddef v) D i argv (v_help_skip v) ic0 false (v_pending v)
                   {| cv_pk := Some (None, true); cv_sap := Some (LP i []); cv_dk := cv_dk (v_cv v) |} F) as K.
     destruct (so_res _); [|exact K].
     destruct (so_unk _); [exact K|].
     destruct (parse_common _ _ _ _ _) as [[o p] c]. exact K.
-  - unfold exec_items. destruct (apply_items _ _ _ _); [|reflexivity].
-    destruct (parse_common _ _ _ _ _) as [[o p] c]. reflexivity.
-  - unfold exec_items. destruct (apply_items _ _ _ _); [|reflexivity].
-    destruct (parse_common _ _ _ _ _) as [[o p] c]. reflexivity.
-  - unfold exec_items. destruct (apply_items _ _ _ _); [|reflexivity].
-    destruct (parse_common _ _ _ _ _) as [[o p] c]. reflexivity.
+  - unfold exec_items. destruct (apply_items _ _ _ _) as [c1|c1]; [|reflexivity].
+    destruct (parse_common _ _ _ _ _) as [[o p] cv']. reflexivity.
+  - unfold exec_items. destruct (apply_items _ _ _ _) as [c1|c1]; [|reflexivity].
+    destruct (parse_common _ _ _ _ _) as [[o p] cv']. reflexivity.
+  - unfold exec_items. destruct (apply_items _ _ _ _) as [c1|c1]; [|reflexivity].
+    destruct (parse_common _ _ _ _ _) as [[o p] cv']. reflexivity.
   - destruct (cr && negb sv); [reflexivity|]. destruct (sd && d_subreq D && _); reflexivity.
+  - destruct cr; reflexivity.
 Qed.
 
 Lemma run_help_skip_kept fx Ds : forall ops s,
@@ -375,15 +486,14 @@ Lemma class_needs_missing_repair fx Ds n ops o :
   | 1%N => fx_pc fx = false
   | 2%N => fx_sh fx = false
   | 3%N => fx_hs fx = false
+  | 4%N => fx_dd fx = false
   | _ => True
   end.
 Proof.
   unfold guard_class.
   destruct (is_pnone _) eqn:E1; simpl.
-  - destruct (fx_sh fx) eqn:E2; simpl.
-    + destruct (fx_hs fx); simpl; [exact I|]. destruct (_ && _); [reflexivity|exact I].
-    + destruct (_ && _); [reflexivity|].
-      destruct (fx_hs fx); simpl; [exact I|]. destruct (_ && _); [reflexivity|exact I].
+  - destruct (fx_sh fx) eqn:E2; destruct (fx_hs fx) eqn:E3; destruct (fx_dd fx) eqn:E4; simpl;
+      repeat match goal with |- context [if ?b then _ else _] => destruct b end; auto.
   - destruct (fx_pc fx) eqn:F; [|reflexivity]. exfalso.
     pose proof (run_no_pending fx Ds ops (init n) F (no_pending_init n)) as Hn.
     unfold no_pending in Hn.
@@ -393,13 +503,13 @@ Proof.
 Qed.
 
 Lemma repaired_history_independent fx Ds n ops o :
-  fx_pc fx = true -> fx_sh fx = true -> fx_hs fx = true ->
+  fx_pc fx = true -> fx_sh fx = true -> fx_hs fx = true -> fx_dd fx = true ->
   snd (step fx Ds (run fx Ds (init n) ops) o) = snd (step fx Ds (init n) o).
 Proof.
-  intros F1 F2 F3. apply guarded_state_independent.
+  intros F1 F2 F3 F4. apply guarded_state_independent.
   pose proof (class_needs_missing_repair fx Ds n ops o) as C.
   unfold in_guard. unfold guard_class in *.
-  rewrite F2, F3 in *. simpl in *.
+  rewrite F2, F3, F4 in *. simpl in *.
   destruct (is_pnone _); simpl in *; [reflexivity|congruence].
 Qed.
 
@@ -407,8 +517,8 @@ Definition history_independent (fx : fixes) : Prop :=
   forall Ds n ops o, snd (step fx Ds (run fx Ds (init n) ops) o) = snd (step fx Ds (init n) o).
 
 Lemma repaired_is_history_independent fx :
-  fx_pc fx = true -> fx_sh fx = true -> fx_hs fx = true -> history_independent fx.
-Proof. intros F1 F2 F3 Ds n ops o. apply repaired_history_independent; assumption. Qed.
+  fx_pc fx = true -> fx_sh fx = true -> fx_hs fx = true -> fx_dd fx = true -> history_independent fx.
+Proof. intros F1 F2 F3 F4 Ds n ops o. apply repaired_history_independent; assumption. Qed.
 
 (* ------------------------------------------------------------------------------------------------ *)
 (* calls on other parsers leave a parser's own carried state alone: only the process-wide parts (context
